@@ -1,8 +1,10 @@
 import Snowflake.Base.Hex
 import Snowflake.Model.ClientAddr
-/-! Line protocol for the IP text model, `clientAddr` and the ClientID ring map (C18). -/
+import Snowflake.Model.Attribution
+/-! Line protocol for the IP text model, `clientAddr`, the ClientID ring map and the attribution model
+(C18). -/
 namespace Driver.C18
-open Snowflake Snowflake.IP Snowflake.ClientAddr
+open Snowflake Snowflake.IP Snowflake.ClientAddr Snowflake.Attribution
 
 def b (x : Bool) : String := if x then "true" else "false"
 
@@ -22,7 +24,37 @@ def outStr : Option Nat → String
   | some v => toString v
   | none => "none"
 
+/-- `c<id>=<hex client_ip>` (carrier), `e<session>=<id>` (establish), `t<session>` (stream) -/
+def parseEv (t : String) : Option (Ev Nat Nat GoStr.Str) :=
+  match t.toList with
+  | 'c' :: rest =>
+    match (String.ofList rest).splitOn "=" with
+    | [k, h] => match k.toNat?, Hex.decode h with
+      | some kk, some ip => some (Ev.carrier kk ip)
+      | _, _ => none
+    | _ => none
+  | 'e' :: rest =>
+    match (String.ofList rest).splitOn "=" with
+    | [s, k] => match s.toNat?, k.toNat? with
+      | some ss, some kk => some (Ev.establish ss kk)
+      | _, _ => none
+    | _ => none
+  | 't' :: rest => (String.ofList rest).toNat?.map Ev.stream
+  | _ => none
+
+/-- `nosession` / `none` (nil address) / hex of the address text (`-` = the empty address) -/
+def attrOut : Option (Option GoStr.Str) → String
+  | none => "nosession"
+  | some none => "none"
+  | some (some a) => Hex.enc a
+
 def handle : List String → String
+  | "attr" :: cap :: evs =>
+    match cap.toNat?, evs.mapM parseEv with
+    | some n, some es =>
+      let outs := (run clientAddr 0 [] (init 0 [] n) es).1
+      if outs.isEmpty then "." else ",".intercalate (outs.map attrOut)
+    | _, _ => "bad-op"
   | ["addr", h] =>
     match Hex.decode h with
     | some s => Hex.enc (clientAddr s)
